@@ -276,6 +276,7 @@ func (badgerIt *badgerIterator) Seek(id []byte) error {
 	badgerIt.init(true)
 	badgerIt.c.Seek(id)
 	if !badgerIt.c.Valid() {
+		badgerIt.key = nil
 		return fmt.Errorf("Invalid")
 	}
 	k := badgerIt.c.Item().Key()
@@ -286,8 +287,14 @@ func (badgerIt *badgerIterator) Seek(id []byte) error {
 // Seek moves the iterator to a new location
 func (badgerIt *badgerIterator) SeekReverse(id []byte) error {
 	badgerIt.init(false)
+	if len(id) == 0 {
+		//badger seeks to the last key on an empty key, but no key is below it
+		badgerIt.key = nil
+		return fmt.Errorf("Invalid")
+	}
 	badgerIt.c.Seek(id)
 	if !badgerIt.c.Valid() {
+		badgerIt.key = nil
 		return fmt.Errorf("Invalid")
 	}
 	k := badgerIt.c.Item().Key()
